@@ -49,6 +49,7 @@ ENUM_PARAMS = {"sensitivity_maps_type": "c.smapType", "image_recon_type": "c.rec
 # Config field of every parameter of build_supervised (for the keyword map of the inner call)
 FIELD_OF = {**{k: v[2:] for k, v in FLAGS.items()}, **{k: v[2:] for k, v in POSITIVE.items()},
             **{k: v[2:] for k, v in ENUM_PARAMS.items()}, "crop": "crop"}
+OUTER_HYPER = {"mask_split_ratio", "mask_split_acs_region", "mask_split_gaussian_std", "mask_split_half_direction"}
 IGNORED_PARAMS = {  # numeric hyper-parameters / operators: run-time data, not part of the stage table
     "forward_operator", "backward_operator", "crop_type", "rescale_mode", "rescale_2d_if_3d", "random_rotation_degrees",
     "random_flip_type", "sensitivity_maps_espirit_threshold", "sensitivity_maps_espirit_kernel_size",
@@ -75,10 +76,17 @@ class Tr:
         self.tree = parse_file(REPO / MT)
         self.ssl_tree = parse_file(REPO / SSL)
         self.wrappers = {}  # alias -> module class
+        self.wrapper_rows = []   # (alias, module class, toggle_dims)
+        self.forms: list[tuple[str, bool]] = []    # (class, composed through a ModuleWrapper alias) in order of translation
         for st in self.tree.body:
             if (isinstance(st, ast.Assign) and isinstance(st.value, ast.Call)
                     and ast.unparse(st.value.func) == "ModuleWrapper" and st.value.args):
                 self.wrappers[st.targets[0].id] = ast.unparse(st.value.args[0])
+                kw = {k.arg: k.value for k in st.value.keywords}
+                tog = kw.get("toggle_dims", st.value.args[1] if len(st.value.args) > 1 else None)
+                if not (isinstance(tog, ast.Constant) and isinstance(tog.value, bool)):
+                    raise Untranslatable(f"ModuleWrapper toggle_dims of {st.targets[0].id}")
+                self.wrapper_rows.append((st.targets[0].id, ast.unparse(st.value.args[0]), tog.value))
 
     # ---- strings / keys --------------------------------------------------------------------------
     def string(self, node: ast.AST) -> str:
@@ -223,6 +231,7 @@ class Tr:
         if not isinstance(call, ast.Call) or not isinstance(call.func, ast.Name):
             raise Untranslatable(f"not a transform constructor: `{ast.unparse(call)}`")
         name = self.wrappers.get(call.func.id, call.func.id)
+        self.forms.append((name, call.func.id in self.wrappers))
         kw = {k.arg: k.value for k in call.keywords}
         if None in kw:
             raise Untranslatable(f"**kwargs in `{ast.unparse(call)}`")
@@ -235,6 +244,11 @@ class Tr:
             if idx is not None and idx < len(pos) and pos[idx] is not None:
                 v, pos[idx] = pos[idx], None
                 return v
+            # not given: the default of the constructor's signature (a constant / enum member)
+            for n in ([names_] if isinstance(names_, str) else names_):
+                d = self.ctor_default(name, n)
+                if d is not None:
+                    return d
             if required:
                 raise Untranslatable(f"{name}: argument {names_} not given")
             return None
@@ -316,7 +330,11 @@ class Tr:
             pct = self.flag(take("percentile"))
             return done(f".computeScalingFactor {nk} {pct} {self.key(take('scaling_factor_key'))}")
         if name == "NormalizeModule":
-            return done(f".normalize {self.key(take('scaling_factor_key'))} {self.keys(take('keys_to_normalize'))}")
+            sfk = self.key(take('scaling_factor_key'))
+            ktn = take('keys_to_normalize', required=False)
+            if ktn is None or (isinstance(ktn, ast.Constant) and ktn.value is None):
+                return done(f".normalize {sfk} default_norm_keys")
+            return done(f".normalize {sfk} {self.keys(ktn)}")
         if name == "ComputeImageModule":
             drop("backward_operator")
             return done(f".computeImage {self.key(take('kspace_key'))} {self.key(take('target_key'))} "
@@ -328,6 +346,136 @@ class Tr:
             return done(".addBooleanKeys")
         raise Untranslatable(f"unknown transform class `{name}`")
 
+    def ctor_default(self, cls: str, param: str):
+        """AST of the default value of `cls.__init__(…, param=<default>)`, when it is a constant or an enum member"""
+        try:
+            fn = find_function(self.tree, f"{cls}.__init__")
+        except Untranslatable:
+            return None
+        args = fn.args.args
+        defaults = [None] * (len(args) - len(fn.args.defaults)) + list(fn.args.defaults)
+        for a, d in zip(args, defaults):
+            if a.arg == param and d is not None and (isinstance(d, ast.Constant) or ast.unparse(d) in self.enums):
+                return d
+        return None
+
+    NORM_IGNORED = {"initial_image", "initial_kspace"}   # dataset-provided entries outside the model's key vocabulary
+
+    def default_norm_keys(self) -> str:
+        fn = find_function(self.tree, "NormalizeModule.__init__")
+        for st in ast.walk(fn):
+            if isinstance(st, ast.Assign) and ast.unparse(st.targets[0]) == "self.keys_to_normalize":
+                v = st.value
+                if (isinstance(v, ast.IfExp) and ast.unparse(v.test) == "keys_to_normalize is None"
+                        and isinstance(v.body, ast.List) and ast.unparse(v.orelse) == "keys_to_normalize"):
+                    out = []
+                    for e in v.body.elts:
+                        s_ = self.string(e)
+                        if s_ in self.NORM_IGNORED:
+                            continue
+                        if s_ not in KEYS:
+                            raise Untranslatable(f"NormalizeModule default key {s_!r}")
+                        out.append(KEYS[s_])
+                    return "[" + ", ".join(out) + "]"
+        raise Untranslatable("NormalizeModule default keys_to_normalize not found")
+
+    # ---- signatures ------------------------------------------------------------------------------
+    def params_of(self, fname: str) -> list[tuple[str, ast.AST | None]]:
+        fn = find_function(self.tree, fname)
+        if fn.args.vararg or fn.args.kwarg or fn.args.kwonlyargs or fn.args.posonlyargs:
+            raise Untranslatable(f"{fname}: unusual signature")
+        args = fn.args.args
+        defaults = [None] * (len(args) - len(fn.args.defaults)) + list(fn.args.defaults)
+        return [(a.arg, d) for a, d in zip(args, defaults)]
+
+    def param_table(self, fname: str) -> str:
+        rows = []
+        for name, _ in self.params_of(fname):
+            if name in ("forward_operator", "backward_operator"):
+                cls = ".operator"
+            elif name == "crop":
+                cls = ".crop"
+            elif name == "transforms_type":
+                cls = ".transformsType"
+            elif name in FLAGS:
+                cls = ".flag"
+            elif name in POSITIVE:
+                cls = ".positive"
+            elif name in ENUM_PARAMS:
+                cls = ".enumP"
+            elif name in IGNORED_PARAMS or name in OUTER_HYPER:
+                cls = ".hyper"
+            else:
+                cls = ".unknown"
+            rows.append(f'("{name}", {cls})')
+        return "[" + ", ".join(rows) + "]"
+
+    def default_config(self, fnames: list[str]) -> str:
+        """the `Config` the builders' default arguments denote (fields no listed builder has keep `Config`'s default)"""
+        fields: dict[str, str] = {}
+        for fname in fnames:
+            for name, d in self.params_of(fname):
+                if name == "mask_func":
+                    fields["maskFunc"] = "true"          # required argument; the quantifier has a mask function
+                    continue
+                if d is None:
+                    continue
+                if name == "crop":
+                    if isinstance(d, ast.Constant) and d.value is None:
+                        fields["crop"] = ".none"
+                    elif isinstance(d, ast.Constant) and isinstance(d.value, str):
+                        fields["crop"] = ".name" if d.value else ".none"
+                    elif isinstance(d, ast.Tuple):
+                        fields["crop"] = ".tuple" if d.elts else ".none"
+                    else:
+                        raise Untranslatable(f"default of crop `{ast.unparse(d)}`")
+                elif name == "transforms_type":
+                    t = ast.unparse(d)
+                    if t not in ("TransformsType.SUPERVISED", "TransformsType.SSL_SSDU"):
+                        raise Untranslatable(f"default of transforms_type `{t}`")
+                    fields["ssl"] = "false" if t.endswith("SUPERVISED") else "true"
+                elif name in FLAGS:
+                    if not isinstance(d, ast.Constant):
+                        raise Untranslatable(f"default of {name} `{ast.unparse(d)}`")
+                    fields[FLAGS[name][2:]] = "true" if d.value else "false"
+                elif name in POSITIVE:
+                    if not (isinstance(d, ast.Constant) and isinstance(d.value, (int, float))):
+                        raise Untranslatable(f"default of {name} `{ast.unparse(d)}`")
+                    fields[POSITIVE[name][2:]] = "true" if d.value > 0 else "false"
+                elif name in ENUM_PARAMS:
+                    fields[ENUM_PARAMS[name][2:]] = self.enum_default(name, d)
+        order = ["crop", "imageCenterCrop", "rescale", "pad", "rotation", "flip", "reverse", "paddingEps", "maskFunc",
+                 "compressCoils", "padCoils", "bodyCoil", "estimateSmaps", "smapType", "smapGaussian", "deleteAcsMask",
+                 "deleteKspace", "recon", "scalingKey", "percentile", "useSeed", "ssl", "split", "splitKeepAcs"]
+        items = [f"{k} := {fields[k]}" for k in order if k in fields]
+        return "{ " + ", ".join(items) + " }"
+
+    def enum_default(self, name: str, d: ast.AST) -> str:
+        if isinstance(d, ast.Constant) and d.value is None:
+            val = None
+        else:
+            val = self.string(d)
+        if name == "sensitivity_maps_type":
+            m = {"espirit": ".espirit", "rss_estimate": ".rssEstimate", "unit": ".unit"}
+        elif name == "image_recon_type":
+            m = {"ifft": ".ifft", "rss": ".rss", "complex": ".complex", "complex_mod": ".complexMod", "sense": ".sense",
+                 "sense_mod": ".senseMod"}
+        elif name == "mask_split_type":
+            m = {"uniform": ".uniform", "gaussian": ".gaussian", "half": ".half"}
+        elif name == "scaling_key":
+            if val is None:
+                return ".none"
+            if val == "scaling_factor":
+                return ".given"
+            if val in KEYS:
+                return f"(.key {KEYS[val]})"
+            raise Untranslatable(f"default scaling key {val!r}")
+        else:
+            raise Untranslatable(f"enum parameter {name}")
+        if val not in m:
+            raise Untranslatable(f"default of {name}: {val!r}")
+        return m[val]
+
     # ---- builders --------------------------------------------------------------------------------
     def segments(self, fn: ast.FunctionDef, var: str, first_from_call: str | None = None):
         """Yield Lean list expressions for the statements that build `var`, in order.  Returns
@@ -335,12 +483,17 @@ class Tr:
         raise NotImplementedError
 
     def build_supervised(self) -> str:
-        fn = find_function(self.tree, "build_supervised_mri_transforms")
+        return self.build_list("build_supervised_mri_transforms")
+
+    def build_list(self, fname: str) -> str:
+        fn = find_function(self.tree, fname)
         segs = []
         started = False
         for st in fn.body:
             if isinstance(st, ast.Expr) and isinstance(st.value, ast.Constant):
                 continue  # docstring
+            if self.logging_only(st):
+                continue
             if isinstance(st, (ast.AnnAssign, ast.Assign)):
                 tgt = st.target if isinstance(st, ast.AnnAssign) else st.targets[0]
                 if ast.unparse(tgt) != "mri_transforms" or started:
@@ -371,12 +524,22 @@ class Tr:
             return [self.stage(st.value.args[0])]
         raise Untranslatable(f"statement `{ast.unparse(st)[:70]}`")
 
+    @staticmethod
+    def logging_only(st: ast.stmt) -> bool:
+        """a statement that only logs (`logger = …`, `logger.warning(…)`, `if …: logger.warning(…)`)"""
+        text = ast.unparse(st)
+        if "logger" not in text:
+            return False
+        if any(isinstance(n, ast.Name) and n.id == "mri_transforms" for n in ast.walk(st)):
+            return False
+        return not any(isinstance(n, (ast.Return, ast.AugAssign, ast.Raise)) for n in ast.walk(st))
+
     def segment(self, st: ast.stmt):
         """(guard or None, stages)"""
         if isinstance(st, ast.If):
             if st.orelse:
                 raise Untranslatable("if/else around transforms")
-            items = [x for s_ in st.body for x in self.addition(s_)]
+            items = [x for s_ in st.body if not self.logging_only(s_) for x in self.addition(s_)]
             return (self.flag(st.test), items)
         return (None, self.addition(st))
 
@@ -485,6 +648,7 @@ class Tr:
     def _splitter_call(self, call: ast.AST, cls: str):
         if not isinstance(call, ast.Call) or self.wrappers.get(ast.unparse(call.func), ast.unparse(call.func)) != cls:
             raise Untranslatable(f"expected {cls}, found `{ast.unparse(call)[:50]}`")
+        self.forms.append((cls, ast.unparse(call.func) in self.wrappers))
         stars = [k for k in call.keywords if k.arg is None]
         if len(stars) != 1 or "mask_splitter_kwargs" not in ast.unparse(stars[0].value):
             raise Untranslatable(f"{cls} is not given **mask_splitter_kwargs")
@@ -637,8 +801,84 @@ def splitSeed (useSeed : Bool) : Option (List SeedField) := seedOf useSeed [.fil
 def crop_seed_fields : List SeedField := [.filename]
 def build_supervised (c : Config) : List Stage := Pipeline.buildSupervisedNF c
 def build (c : Config) : List Stage := Pipeline.buildNF c
+def stage_forms_supervised : FormTable := supervisedForms
+def stage_forms_outer : FormTable := outerForms
 def compile : Stage → List Instr := Pipeline.compile
 """
+
+FALLBACK2 = """/-- SKIPPED ({reason}); stands for the hand-written model, the bridge is vacuous -/
+def default_norm_keys : List Key := defaultNormKeys
+def build_pre (c : Config) : List Stage := Pipeline.buildPreNF c
+def build_post (c : Config) : List Stage := Pipeline.buildPostNF c
+def stage_forms_pre : FormTable := preForms
+def stage_forms_post : FormTable := postForms
+"""
+
+FALLBACK3 = """/-- SKIPPED ({reason}); stands for the hand-written tables, the bridge is vacuous -/
+def supervised_params : ParamTable := supervisedParams
+def outer_params : ParamTable := outerParams
+def pre_params : ParamTable := preParams
+def post_params : ParamTable := postParams
+def default_config : Config := {{}}
+def default_config_supervised : Config := {{}}
+def default_config_prepost : Config := {{}}
+def wrappers : WrapperTable := wrapperTable
+"""
+
+
+def _forms(rows) -> str:
+    return "[" + ", ".join(f'("{c}", {"true" if w else "false"})' for c, w in rows) + "]"
+
+
+def _phase3_extra(tr_or_none):
+    """pre/post builders, signature tables, default configurations, wrapper table, call forms"""
+    text, st = "", {}
+    names2 = ["default_norm_keys", "build_pre", "build_post", "stage_forms_pre", "stage_forms_post"]
+    names3 = ["supervised_params", "outer_params", "pre_params", "post_params", "default_config",
+              "default_config_supervised", "default_config_prepost", "wrappers"]
+    try:
+        tr = tr_or_none or Tr()
+        dnk = tr.default_norm_keys()
+        tr.forms = []
+        pre = tr.build_list("build_pre_mri_transforms")
+        fpre = list(tr.forms)
+        tr.forms = []
+        post = tr.build_list("build_post_mri_transforms")
+        fpost = list(tr.forms)
+        text += (
+            f"/-- translated from `{MT}`:`NormalizeModule.__init__` (default `keys_to_normalize`, tensor keys of the model) -/\n"
+            f"def default_norm_keys : List Key := {dnk}\n\n"
+            f"/-- translated from `{MT}`:`build_pre_mri_transforms` -/\n"
+            f"def build_pre (c : Config) : List Stage :=\n  {pre}\n\n"
+            f"/-- translated from `{MT}`:`build_post_mri_transforms` -/\n"
+            f"def build_post (c : Config) : List Stage :=\n  {post}\n\n"
+            f"/-- how the pre/post builders compose the classes (class, through a `ModuleWrapper` alias) -/\n"
+            f"def stage_forms_pre : FormTable := {_forms(fpre)}\n"
+            f"def stage_forms_post : FormTable := {_forms(fpost)}\n\n")
+        st.update({n: "translated" for n in names2})
+    except Untranslatable as e:
+        text += FALLBACK2.format(reason=str(e).replace("-/", "- /"))
+        st.update({n: f"skipped: {e}" for n in names2})
+    try:
+        tr = tr_or_none or Tr()
+        rows = ", ".join(f'("{a}", "{m_}", {"true" if t else "false"})' for a, m_, t in tr.wrapper_rows)
+        text += (
+            f"/-- translated from the signatures in `{MT}` (parameter, how it enters the stage table) -/\n"
+            f"def supervised_params : ParamTable := {tr.param_table('build_supervised_mri_transforms')}\n"
+            f"def outer_params : ParamTable := {tr.param_table('build_mri_transforms')}\n"
+            f"def pre_params : ParamTable := {tr.param_table('build_pre_mri_transforms')}\n"
+            f"def post_params : ParamTable := {tr.param_table('build_post_mri_transforms')}\n\n"
+            f"/-- the configuration the default arguments denote -/\n"
+            f"def default_config : Config := {tr.default_config(['build_mri_transforms'])}\n"
+            f"def default_config_supervised : Config := {tr.default_config(['build_supervised_mri_transforms'])}\n"
+            f"def default_config_prepost : Config := {tr.default_config(['build_pre_mri_transforms', 'build_post_mri_transforms'])}\n\n"
+            f"/-- translated from the `ModuleWrapper(...)` assignments of `{MT}` -/\n"
+            f"def wrappers : WrapperTable := [{rows}]\n\n")
+        st.update({n: "translated" for n in names3})
+    except Untranslatable as e:
+        text += FALLBACK3.format(reason=str(e).replace("-/", "- /"))
+        st.update({n: f"skipped: {e}" for n in names3})
+    return text, st
 
 
 def _c08_extra():
@@ -652,8 +892,12 @@ def _c08_extra():
         bfields, bpassed = tr.seed_fields(tr.tree, "EstimateBodyCoilImage.__call__", None)
         sfields, _ = tr.seed_fields(tr.ssl_tree, "MaskSplitter.forward", None)
         cfields, _ = tr.seed_fields(tr.tree, "CropKspace.__call__", None)
+        tr.forms = []
         sup = tr.build_supervised()
+        fsup = list(tr.forms)
+        tr.forms = []
         outer = tr.build_outer()
+        fouter = list(tr.forms)
 
         def seed_def(name, fields, passed):
             body = f"seedOf useSeed {fields}" if passed else "none   -- the seed is not passed to the mask function"
@@ -675,6 +919,9 @@ def _c08_extra():
             + f"def build_supervised (c : Config) : List Stage :=\n  {sup}\n\n"
             + f"/-- translated from `{MT}`:`build_mri_transforms` -/\n"
             + f"def build (c : Config) : List Stage :=\n  {outer}\n\n"
+            + "/-- how the two builders compose the classes (class, through a `ModuleWrapper` alias), in source order -/\n"
+            + f"def stage_forms_supervised : FormTable := {_forms(fsup)}\n"
+            + f"def stage_forms_outer : FormTable := {_forms(fouter)}\n\n"
         )
         st = {n: "translated" for n in names}
         try:
@@ -682,9 +929,14 @@ def _c08_extra():
         except Untranslatable as e:      # pragma: no cover - stage_programs catches per class
             ctext, cstatus = "def compile : Stage → List Instr := Pipeline.compile\n", {"compile": f"skipped: {e}"}
         st.update(cstatus)
-        return text + ctext, st
+        t3, s3 = _phase3_extra(tr)
+        st.update(s3)
+        return text + ctext + "\n" + t3, st
     except Untranslatable as e:
-        return head + FALLBACK.format(reason=str(e).replace("-/", "- /")), {n: f"skipped: {e}" for n in names}
+        t3, s3 = _phase3_extra(None)
+        st0 = {n: f"skipped: {e}" for n in names}
+        st0.update(s3)
+        return head + FALLBACK.format(reason=str(e).replace("-/", "- /")) + "\n" + t3, st0
 
 
 EXTRA["C08"] = _c08_extra
@@ -694,7 +946,8 @@ from ..gen import Kernel, register  # noqa: E402
 
 register("C08", [
     Kernel("builder_flags", MT, "build_supervised_mri_transforms", [], "(32 : Int)",
-           lambda k, fn: f"def {k.name} : Int := ({len(fn.args.args)} : Int)\n", imports=("DirectVerif.Model.Pipeline", "DirectVerif.Lemmas.C08NF")),
+           lambda k, fn: f"def {k.name} : Int := ({len(fn.args.args)} : Int)\n", imports=("DirectVerif.Model.Pipeline", "DirectVerif.Model.PipelinePrePost", "DirectVerif.Model.PipelineTables",
+                    "DirectVerif.Lemmas.C08NF")),
 ])
 
 
